@@ -1,4 +1,6 @@
 import os
+import threading
+from concurrent.futures import ThreadPoolExecutor
 
 from .props import HDR, standard
 
@@ -13,18 +15,52 @@ def _replace():
 def run(ctx):
     n = {"quick": 280, "thorough": 5000}[ctx.tier]
     nl = {"quick": 240, "thorough": 3000}[ctx.tier]
+    nf = {"quick": 170, "thorough": 3000}[ctx.tier]
+    # the two stages of package lib/controller use the same overlay (one test binary) and run one after the other;
+    # the federation stage runs next to them, and the Coq evaluation of a stage overlaps with the other harnesses
+    # --replay: the driver regenerates a case with the seed recorded in the replay file, which is the run's seed;
+    # the stages below use seed + offset, so the offset of the replayed stage is added here
+    offsets = {"c18": 0, "c18legacy": 1, "c18fan": 2}
+    if ctx.replay is not None and ctx.replay.get("stage") in offsets:
+        ctx.replay = dict(ctx.replay, seed=int(ctx.replay["seed"]) + offsets[ctx.replay["stage"]])
+    ctl_files = ["C18/zz_verif_c18legacy_test.go", "C18/zz_verif_c18fan_test.go"]
+    ctl_lock = threading.Lock()
+    plain_go_test = ctx.go_test
+
+    def go_test(pkg, *a, **kw):
+        if pkg == "lib/controller":
+            with ctl_lock:
+                return plain_go_test(pkg, *a, **kw)
+        return plain_go_test(pkg, *a, **kw)
+    ctx.go_test = go_test
 
     def stages(ctx, mult, suffix, off):
-        ctx.stage("c18" + suffix, "lib/controller/federation", "federation", ["C18/zz_verif_c18_test.go"], "TestVerifC18$",
-                  n * mult, HDR.format(imports="lib.TokSplit lib.ManifestTok model.C18_model model.C18_run"), seed_offset=off,
-                  shard=18, pam=True, replace=_replace(), env={"VERIF_STAGE": "c18" + suffix})
-        ctx.stage("c18legacy" + suffix, "lib/controller", "controller", ["C18/zz_verif_c18legacy_test.go"], "TestVerifC18Legacy$",
-                  nl * mult, HDR.format(imports="lib.TokSplit lib.ManifestTok model.C18_model model.C18_legacy_run"),
-                  seed_offset=off + 1, shard=30, pam=True, replace=_replace(), env={"VERIF_STAGE": "c18legacy" + suffix})
-    return standard(ctx, "C18", ["model/C18_run.vo", "model/C18_legacy_run.vo"], stages,
+        jobs = [
+            lambda: ctx.stage("c18" + suffix, "lib/controller/federation", "federation", ["C18/zz_verif_c18_test.go"], "TestVerifC18$",
+                              n * mult, HDR.format(imports="lib.TokSplit lib.ManifestTok model.C18_model model.C18_run"), seed_offset=off,
+                              shard=18, pam=True, replace=_replace(), env={"VERIF_STAGE": "c18" + suffix}),
+            lambda: ctx.stage("c18fan" + suffix, "lib/controller", "controller", ctl_files, "TestVerifC18Fan$",
+                              nf * mult, HDR.format(imports="lib.TokSplit lib.ManifestTok model.C18_model model.C18_fan_model model.C18_fan_run"),
+                              seed_offset=off + 2, shard=22, pam=True, replace=_replace(), env={"VERIF_STAGE": "c18fan" + suffix}),
+            lambda: ctx.stage("c18legacy" + suffix, "lib/controller", "controller", ctl_files, "TestVerifC18Legacy$",
+                              nl * mult, HDR.format(imports="lib.TokSplit lib.ManifestTok model.C18_model model.C18_legacy_run"),
+                              seed_offset=off + 1, shard=30, pam=True, replace=_replace(), env={"VERIF_STAGE": "c18legacy" + suffix}),
+        ]
+        with ThreadPoolExecutor(max_workers=3) as ex:
+            for f in [ex.submit(j) for j in jobs]:
+                f.result()
+        ctx.stages.sort(key=lambda st: st.name)
+    return standard(ctx, "C18", ["model/C18_run.vo", "model/C18_legacy_run.vo", "model/C18_fan_run.vo"], stages,
                     rule="Conn.CollectionGet by portable data hash with 0-4 gated stub remotes (match / single-token tampering / other / "
-                         "malformed manifest, 404, 5xx, hang) released in a generated order, requests exact / with hints / one digit off / "
-                         "other length; fetch by uuid; direct rewriteManifest and PortableDataHash on valid, tampered and malformed text; "
+                         "malformed manifest, errors of every status class 1xx-5xx, hang) released in a generated order, requests exact / with hints / "
+                         "one digit off / other length; fetch by uuid; direct rewriteManifest and PortableDataHash on valid, tampered and malformed text; "
+                         "legacy rewriteSignatures on fabricated responses; c18fan: GET by hash / by remote uuid through the legacy handler stack with "
+                         "a stub HTTP transport, 0-4 remotes answering with any status code (200, 1xx, other 2xx, 3xx, 4xx, 5xx) and any body (record with "
+                         "matching / tampered / unrelated manifest, lying or differing record hash, error document, not JSON), transport error or "
+                         "silence, released one at a time in a generated order; "
                          "distinct by hash of the case term; non-trivial = at least 2 remotes or a successful fetch",
                     assumptions=["MD5 is computed by the Gallina implementation lib/Md5.v (validated by the correspondence)",
-                                 "reply order is enforced by gates; a collection-type reply is followed by waiting for the call to return or for the bad-hash warning (fallback 2 s)"])
+                                 "reply order is enforced by gates; a collection-type reply is followed by waiting for the call to return or for the bad-hash warning (fallback 2 s)",
+                                 "c18fan: a released answer is followed by waiting until the request completes or the answer's body has been closed "
+                                 "(fallback 3 s, tagged sync-timeout; on a correct tree the result does not depend on the order of failing answers); with a "
+                                 "silent remote and no success the client gives up and the status may be 404 or 502 depending on goroutine timing (both accepted)"])
